@@ -10,6 +10,7 @@ import datetime
 import typing as t
 
 from vlib.cond import Cond
+from vlib.fixtures import generics as G
 from vlib.fixtures import models as M
 from vlib.prelude import SYMBOLIC, Chooser, NoTracing, reached
 
@@ -74,7 +75,7 @@ def leaves():
         ("type", type), ("Decimal", decimal.Decimal), ("date", datetime.date), ("Literal[1,'a']", t.Literal[1, "a"]), ("Color", M.Color),
         ("frozenset", frozenset), ("Tuple", t.Tuple), ("Set", t.Set), ("FrozenSet", t.FrozenSet), ("Sequence", t.Sequence),
         ("Mapping", t.Mapping), ("MutableMapping", t.MutableMapping), ("Collection", t.Collection), ("Iterable", t.Iterable),
-        ("Deque", t.Deque), ("AppError", AppError), ("Zone", Zone), ("TwoBare", TwoBare),
+        ("Deque", t.Deque), ("AppError", AppError), ("Zone", Zone), ("TwoBare", TwoBare), ("SigBox[int]", G.SigBox[int]), ("GPair[str,int]", G.GPair[str, int]), ("GPlain[int]", G.GPlain[int]),
         # PEP 604 unions of plain classes (their text has no bracket)
         ("int|str", int | str), ("int|None", int | None), ("NoHints|None", NoHints | None),
         ("abc.Callable", collections.abc.Callable), ("abc.Mapping", collections.abc.Mapping), ("abc.Sequence", collections.abc.Sequence),
